@@ -115,7 +115,13 @@ namespace occa {
     if (offset + bytes <= size) {
       return slice(offset, bytes);
     } else {
-      resize(reserved + alignedBytes);
+      /*
+      No free region fits: migrate to a new buffer, which packs the reservations.
+      resize() only does that when the size changes, so make sure it does.
+      */
+      udim_t newSize = reserved + alignedBytes;
+      if (newSize == size) newSize += alignment;
+      resize(newSize);
       return slice(reserved, bytes);
     }
   }
